@@ -288,13 +288,17 @@ def _weighted(draw, pairs):
 
 
 @st.composite
-def row_strategy(draw, E: Env, year: int, used_keys: set, open_weight: int):
+def row_strategy(draw, E: Env, year: int, used_keys: set, open_weight: int, force_pair=None):
     cls = {}
     # ---------------- airports
     pair_cls = _weighted(draw, [('any', 42), ('near', 18), ('dateline', 12), ('odd_offset', 12),
                                 ('unknown', 7), ('same', 3), ('patch', 6)])
     codes = E.codes
-    if pair_cls == 'near':
+    if force_pair is not None:
+        # the directed airport pair of an earlier row of the same file (every row is judged on its own stated distance)
+        pair_cls = 'twin'
+        a, b = force_pair
+    elif pair_cls == 'near':
         a, b = draw(st.sampled_from(E.near_pairs))
         if draw(st.booleans()):
             a, b = b, a
@@ -307,7 +311,7 @@ def row_strategy(draw, E: Env, year: int, used_keys: set, open_weight: int):
         if draw(st.booleans()):
             a, b = b, a
     elif pair_cls == 'patch':
-        a = draw(st.sampled_from(['FRU', 'KIV']))
+        a = draw(st.sampled_from(['FRU', 'KIV', 'DSA', 'ISN', 'ETH', 'LGP', 'MJV']))  # the last five are of type 'closed'
         b = draw(st.sampled_from([c for c in codes if c != a]))
         if draw(st.booleans()):
             a, b = b, a
@@ -462,6 +466,13 @@ def row_strategy(draw, E: Env, year: int, used_keys: set, open_weight: int):
     elif gc > 650:
         cands.append(('over50_under10', 16))
     dist_cls = _weighted(draw, cands)
+    if force_pair is not None and draw(st.booleans()):
+        # same pair, opposite verdict: no stated distance (always kept) after/before a grossly wrong one
+        dist_cls = 'zero' if used_keys and getattr(used_keys, 'last_dist', None) == 'implausible' else 'implausible'
+    try:
+        used_keys.last_dist = dist_cls
+    except AttributeError:
+        pass
     sign = draw(st.sampled_from([1, -1]))
     u = draw(st.integers(0, 1000)) / 1000.0
     if dist_cls == 'exact':
@@ -525,16 +536,27 @@ def row_strategy(draw, E: Env, year: int, used_keys: set, open_weight: int):
     return {'row': row, 'cls': cls}
 
 
+class _Used(set):
+    """The set of used flight keys of one generated file, plus the distance class of the previous row."""
+    last_dist = None
+
+
 @st.composite
 def case_strategy(draw, E: Env):
     year = draw(st.sampled_from(YEARS))
     mode = _weighted(draw, [('add', 82), ('convert', 18)])
     n = draw(st.integers(1, 4))
-    used: set = set()
+    used = _Used()
     # open-ended rows are rarer in file mode: one failing row aborts the whole file there
     ow = 7 if mode == 'add' else 3
-    rows = [draw(row_strategy(E, year, used, ow)) for _ in range(n)]
-    return {'year': year, 'mode': mode, 'rows': [r['row'] for r in rows], 'cls': [r['cls'] for r in rows]}
+    rows = []
+    for _ in range(n):
+        known = [(r['row']['depapt'], r['row']['arrapt']) for r in rows
+                 if r['row']['depapt'] in E.airports and r['row']['arrapt'] in E.airports and r['row']['depapt'] != r['row']['arrapt']]
+        twin = draw(st.sampled_from(known)) if known and draw(st.integers(0, 3)) == 0 else None
+        rows.append(draw(row_strategy(E, year, used, ow, force_pair=twin)))
+    return {'year': year, 'mode': mode, 'rows': [r['row'] for r in rows], 'cls': [r['cls'] for r in rows],
+            'final_commit': draw(st.booleans())}
 
 
 # --------------------------------------------------------------------------
@@ -683,7 +705,8 @@ def body(ctx: core.Ctx, case: dict):
                         status[i] = 'aborted'
                 warnings = {ln: w.warn_type.name for ln, w in db.warnings.items()}
                 unknown_seen = set(db.unknown_airports)
-                db.commit()
+                if case.get('final_commit', True):
+                    db.commit()  # not needed for durability: add() commits by default
             finally:
                 db.close()
         else:
